@@ -236,14 +236,21 @@ func H_C09_JoinMutual() {
 		d.State = StateDead
 		d.PMin, d.PMax, d.PCur = 1, 5, ca.ProtocolVersion
 	}
+	if vPick(2) == 1 {
+		// the joiner may already list the host as alive (learnt by hearsay, or an earlier incarnation of the
+		// host at the same address) while the host does not know the joiner: Join must still do the exchange
+		h := fa.vAddConcreteAlive(vSelf, 1)
+		h.PMin, h.PMax, h.PCur = 1, 5, cb.ProtocolVersion
+	}
 	ea, eb := vNewDuplex()
 	fa.tr.conn = ea
 	hostDone := false
 	go func() { fb.m.handleConn(eb); hostDone = true }()
 
-	err := fa.m.pushPullNode(Address{Addr: "10.0.0.1:7946", Name: vSelf}, true)
+	// through the public API, addressed by name/ip:port or by bare ip:port
+	n, err := fa.m.Join([]string{[]string{vSelf + "/10.0.0.1:7946", "10.0.0.1:7946", "10.0.0.1"}[vPick(3)]})
 
-	vAssert(err == nil, "c09.join.succeeds")
+	vAssert(err == nil && n == 1, "c09.join.succeeds")
 	if err != nil {
 		return
 	}
